@@ -66,5 +66,33 @@ def fill(chk, not_yet):
         "alpha>0, precision>0, print frequency>=1 (model's domain); multi-chain / click entry covered by C18/C20.",
         "runtime monitoring: configuration sweep of the real run loop with trace-entry monitors and boundary injection at the continuous draws",
         "DESIGN.md 4/C19")
+    chk("C02", "exploration",
+        "Tree.data_log_likelihood and every clone's subtree vector against (a) a brute-force sum over all CCF index "
+        "assignments (<=4 clones, G<=5, D<=2; compared wherever the value is above the floor) and (b) an interval "
+        "recursion giving the band of values a correct floored implementation may report (exact minus underflow loss .. "
+        "exact plus floor injection / FFT noise): random forests to 12 clones, 8 children, 6 top-level clones, D 1-4, "
+        "flat/moderate/peaked/real-emission data, G 3..1201 across the direct/FFT switch; finiteness everywhere.",
+        "band constants (1e-100 floor, 1e-300 underflow, 1e-10 FFT noise per pairwise step, FFT from 1000 points) "
+        "taken from the property statement / pinned code; reference recursion cross-checked by the brute force.",
+        "runtime monitoring: reference-model oracle (brute force + interval recursion) over generated forests and data",
+        "DESIGN.md 4/C02")
+    chk("C03", "exploration",
+        "log_p, log_p_one and the fused computation against the FS-CRP density written from the statement (data term "
+        "from the reference marginal) for every forest over <=3 (<=4 thorough) points x outlier subsets x 5 alphas x 3 "
+        "outlier priors x up to 7 construction histories, random trees to 12 points; == / hash equal across histories, "
+        "unequal across different canonical keys.",
+        "root-count penalty normaliser frozen from the pinned code (statement fixes it only to 1e-3); data inside the "
+        "C02 window (band checked per case).",
+        "runtime monitoring: reference-model oracle over enumerated trees and construction histories",
+        "DESIGN.md 4/C03")
+    chk("C13", "exploration",
+        "Recorded parameters of every Beta / Bernoulli / Gamma draw of GammaPriorConcentrationSampler.sample (scripted "
+        "auxiliary variable over (0,1), both mixture components) against the Escobar-West formulas for random "
+        "(a,b,alpha,K,n); numerical invariance of the kernel assembled from the recorded parameter functions; call site "
+        "observed in real runs (K, n counted from the graph; alpha/log alpha after the update; alpha recorded in the "
+        "trace).",
+        "scipy.stats as installed; 1e-10 floor treated as a numerical guard.",
+        "runtime monitoring: draw recorder (parameter proxies with scripted returns) + call-site monitor in real runs",
+        "DESIGN.md 4/C13")
     for pid in ["C02","C03","C05","C06","C07","C08","C09","C10","C11","C12","C13","C14","C15","C16","C17","C18","C19","C20"]:
         not_yet[pid] = "check under construction in this session (runtime monitor designed in DESIGN.md section 4); not claimed until it runs clean"
